@@ -130,7 +130,7 @@ Definition replay1 (r : rst) (e : ev) : option rst :=
     match rcv s with
     | RHave c' _ =>
         if c' =? c then
-          lift r (step s (if a =? 0 then RecvBodyOk else RecvBodyErr (a =? 2) []))
+          lift r (step s (if a =? 0 then RecvBodyOk else RecvBodyErr (a =? 2)))
         else None
     | _ => None
     end
